@@ -5,5 +5,5 @@ git -C /repo diff --quiet || { echo "/repo not clean"; exit 9; }
 git -C /repo apply /verif/seeded/$S/patch.diff || { echo "patch does not apply"; exit 8; }
 trap 'git -C /repo checkout -q -- . ; git -C /repo clean -fdq src' EXIT INT TERM
 for id in "$@"; do
-  /verif/bin/check $id --tier ${TIER:-quick} 2>&1 | grep -E "VIOLATION|KNOWN|UNDECIDED|SELFTEST|CRASH|exit=" | cut -c1-300
+  VERIF_NO_EVIDENCE=1 /verif/bin/check $id --tier ${TIER:-quick} 2>&1 | grep -E "VIOLATION|KNOWN|UNDECIDED|SELFTEST|CRASH|exit=" | cut -c1-300
 done
